@@ -55,12 +55,12 @@ func init() {
 	reg("C07", ruleStateMachine, ruleNoReturnBeforeStateGuard)
 	reg("C02", ruleJsonKinds, ruleUnionTagDecision, ruleKindTests, ruleOptionalFieldSymmetry, ruleJsonNamesAreModelNames)
 	reg("C14", rulePlan, ruleRecordOrder, ruleOptionalFieldSymmetry, ruleTrivialRecordTrait)
-	reg("C10", rulePairAccess, ruleConstIndex(frontEndNoEvolution, "P2", 30), ruleMakeBounds, ruleErrorProvenance, ruleBreakInSwitchInLoop, rulePositions, ruleNodeLiteralsPositioned, ruleBigIndex, ruleAborts(frontEndNoEvolution, "P4", 25),
+	reg("C10", rulePairAccess, ruleConstIndex(frontEndNoEvolution, "P2", 30), ruleMakeBounds, ruleErrorProvenance, ruleBreakInSwitchInLoop, rulePositions, ruleNodeLiteralsPositioned, ruleBigIndex, ruleAborts(frontEndNoEvolution, "P4", 25), ruleDecodeLoopLeavesOnError,
 		ruleE3(frontScope, "E3"), ruleCollectPackages, ruleBinaryOperatorTokens, ruleReflectiveWalkTerminates)
 	reg("C20", ruleWatchSerialised, ruleWatchRecovers, ruleChdirRestored, ruleWatchEveryEventSchedules, ruleWatchSurvivesErrors)
 	reg("C18", ruleCollectPackages, ruleNamespaceFlattening, ruleE2(frontScope, "E2"), ruleE5(frontScope, "E5"))
-	reg("C11", ruleValidateBeforeWrite, ruleWhoMayWrite, ruleE1(inMod, "E1"), ruleE2(inMod, "E2"), ruleE5(inMod, "E5"))
-	reg("C09", rulePassOrder, ruleVisitorCoverage("VisitorWithContext.VisitChildren", "V1", "V2", 30), ruleVisitorCoverage("defaultRewriteImpl", "V3", "V4", 30), ruleAllModelsValidated, rulePrunes(dslValidationFiles, "V5", 20), ruleContextPositionTests,
+	reg("C11", ruleValidateBeforeWrite, ruleWhoMayWrite, ruleAllModelsValidated, rulePassesWalkWholeEnvironment, ruleE1(inMod, "E1"), ruleE2(inMod, "E2"), ruleE5(inMod, "E5"))
+	reg("C09", rulePassOrder, ruleVisitorCoverage("VisitorWithContext.VisitChildren", "V1", "V2", 30), ruleVisitorCoverage("defaultRewriteImpl", "V3", "V4", 30), ruleAllModelsValidated, rulePassesWalkWholeEnvironment, rulePrunes(dslValidationFiles, "V5", 20), ruleContextPositionTests,
 		ruleE1(frontScope, "E1"), ruleE2(frontScope, "E2"), ruleE5(frontScope, "E5"))
 	reg("C12", ruleMapOrder, ruleSinkSort, ruleCommutativeCallbacks, ruleNoNondeterminism, ruleWriteIfNeeded, ruleWhoMayWrite)
 }
